@@ -326,6 +326,7 @@ def run(ctx):
         feat = C.draw_features(ctx)
         feat["tiny_offsets"] = False  # the exporters print constants with 4 decimals (their stated precision)
         feat["implicit_parent_types"] = cfg.draw(4) == 0  # supertypes introduced only by being used as a parent
+        feat["many_constants"] = cfg.draw(10) == 0  # a wide vocabulary: 12-31 hyphenated constants, most of one type
         feat["cond_numeric"] = cfg.chance(1, 3)
         ctx.profile = "simplified-conditions" if feat["cond_numeric"] else "clean"
         nested = cfg.draw(6)
